@@ -190,6 +190,11 @@ func (e *engineUnderTest) run(query, vars string) (resp jobj, raw string, err er
 		req.Variables = []byte(vars)
 	}
 	wr := graphql.NewEngineResultWriter()
+	defer func() {
+		if p := recover(); p != nil {
+			resp, err = nil, fmt.Errorf("PANIC: %v", p)
+		}
+	}()
 	if err := e.eng.Execute(e.ctx, &req, &wr); err != nil {
 		return nil, wr.String(), err
 	}
